@@ -73,6 +73,12 @@ CHECKS["C10"] = dict(
    note="Reserved words are the list the property anchors on (vm.rs + env/true/false); template expectations rest on the reference interpreter's scoping rules.",
    ref="DESIGN.md section 5 C10")
 
+CHECKS["C13"] = dict(
+   technique="property-based model-based testing of the CLI (verdict model) with order metamorphism",
+   text="Generated *_test.ucg files (true / false / malformed asserts, visible and hidden behind calls; run-time and syntax build errors) are given to the real `ucg test` in every order of 1..4 files and with -r; per-file logs, verdict lines, RESULTS lines and the exit status are parsed and compared with the verdict model; each assertion must appear exactly once, numbered consecutively, in its own file's log only.",
+   note="The model is the property's statement; a malformed assert the static checker can see may legitimately stop the build instead of being logged.",
+   ref="DESIGN.md section 5 C13")
+
 PENDING = {}
 
 def main():
